@@ -3,6 +3,7 @@ C01 — JA3 header equals the JA3 of the ClientHello the client sent.
 Property theorems (helper lemmas live in FpVerif/Lemmas/JA3.lean).
 -/
 import FpVerif.Lemmas.JA3
+import FpVerif.Properties.C05
 import FpVerif.Lemmas.JA3Parse
 namespace Fp.C01
 open Fp Fp.JA3 Fp.Spec.JA3
@@ -80,5 +81,17 @@ example : bare { hsVersion := 771, ciphers := [0x0a0a, 4865, 0x1a1a, 4866, 0xfaf
                  groups := [29, 0x3a3a], points := [0, 1] }
     = strBytes "771,4865-4866,,29,0-1" := by
   rw [bare_eq_spec]; decide
+
+/-- PLUMBING: whatever injector set is configured (default or custom, any order, any outcome of the other injectors)
+and whatever the request, the value computed by the `X-JA3-Fingerprint` injector is what the backend receives under that
+name, exactly once (corollary of `Fp.C05.delivered` on the model of `rewriteFunc`, which the `rw` stream ties to the code). -/
+theorem header_delivered (c : Proxy.Cfg) (i : Proxy.InReq) (j : Proxy.Inj) (hj : j ∈ c.injectors)
+    (hn : j.name = strBytes "X-JA3-Fingerprint")
+    (howns : ∀ j' ∈ c.injectors, Proxy.canonKey j'.name = Proxy.canonKey j.name → j'.out = j.out)
+    (v : Bytes) (hv : j.out = .value v) (hne : v.isEmpty = false) :
+    Proxy.get (Proxy.rewrite c i).hdr (strBytes "X-Ja3-Fingerprint") = [v] := by
+  have hk : Proxy.canonKey j.name = strBytes "X-Ja3-Fingerprint" := by rw [hn]; decide
+  have := Fp.C05.delivered c i j hj (by rw [hk]; decide) howns v hv hne
+  rwa [hk] at this
 
 end Fp.C01
